@@ -270,10 +270,15 @@ class _History:
         q0, q1 = H.pick_sector(rng, self.qd, self.L, mpo=True, zero_total=bool(rng.random() < 0.6))
         Ds = H.bond_dims(rng, self.L, int(rng.integers(1, 5)))
         qD = H.sector_charges(rng, self.qd, Ds, q0, q1, True, ('random', 'sorted')[int(rng.integers(2))])
-        x = self.call('MPO', (), ptn.MPO, list(self.qd), qD, fill='random', rng=rng)
-        if self.c['entries'] == 'real':
-            for i in range(len(x.A)):
-                x.A[i] = x.A[i].real.copy()
+        if rng.random() < 0.3:
+            # explicit scalar fill: the constructor has to mask it with the sparsity pattern
+            fill = (0.7, 1, 0.3 + 0.4j, -2.0)[int(rng.integers(4))]
+            x = self.call('MPO', (), ptn.MPO, np.array(self.qd), [np.array(q) for q in qD], fill=fill)
+        else:
+            x = self.call('MPO', (), ptn.MPO, list(self.qd), qD, fill='random', rng=rng)
+            if self.c['entries'] == 'real':
+                for i in range(len(x.A)):
+                    x.A[i] = x.A[i].real.copy()
         o = _Obj('mpo', x, origin='MPO()')
         self.add(o)
         self.check('MPO', [o])
